@@ -241,4 +241,41 @@ def run(pid, tier, replay=None):
     chk.extra["rule"] = ("heights: every era boundary +-2 for eras 0..71, 2^31/2^32 edges, %d random heights (thorough: all 32,550,000 heights of "
                          "eras 0..31 scanned per era); constants of params.py and of the consensus module; the validator's amount limit found by bisection" % nsamp)
     chk.assumptions.append("the documented numbers are parsed from docs/params.md and must equal the numbers in the property text")
+    # ---- the enforced schedule on the node's delivery path: blocks claiming more than subsidy + fees pushed by peers on the head, on side
+    #      branches that later overtake, next to valid ones (TraceNode clause c12 with Focus C16)
+    import json as _json
+    from checks import node as nodechk
+    from checks.ledger import RandomTree
+    from harness import node_drv
+    cfg_n = sk.Cfg(**nodechk.MODEL_CFG)
+    sk.apply_cfg(cfg_n)
+    keys_n = sk.Keys(3)
+    sba, hba = nodechk.probe_switches(cfg_n, keys_n)
+    nconsts = nodechk.ledger_consts(cfg_n, {pid}, sba, hba)
+    nconsts["Focus"] = {pid}
+    ntraces, nlabels = [], []
+    for i in range(10 if quick else 100):
+        w3 = sk.World(cfg_n, keys_n, tag=b"c16d%d" % i)
+        g3 = w3.make_genesis(ts=5000)
+        run_ = node_drv.NodeRun(w3, g3, peers=nodechk.PEERS, tid=930000 + i, clock0=5000)
+        try:
+            nrec = nodechk.NodeRec(run_, rng)
+            rt = RandomTree(w3, nrec, rng, nkeys=3, p_mut=0.0)
+            lab = []
+            for k in range(14 if quick else 28):
+                # an over-claiming block preferably on a block that is not the head (a side branch), then valid blocks on top of whatever is stored
+                side = [a for a in rt.stored if w3.by_abs[a].hash() != run_.node.chain().current_chain_hash]
+                if rng.random() < 0.4:
+                    res, m = rt.step(force=rng.choice(["reward+1", "reward+5", "reward+1000"]), parent=rng.choice(side) if side and rng.random() < 0.7 else None)
+                else:
+                    res, m = rt.step(force="")
+                lab.append(["block", res, m])
+            if run_.events:
+                ntraces.append(run_.trace())
+                nlabels.append(lab)
+            chk.case(_json.dumps(["node", lab]), nontrivial=True)
+        finally:
+            run_.close()
+    nodechk.judge(chk, ntraces, nlabels, nconsts)
+    sk.restore_cfg()
     return chk.finish()
